@@ -441,14 +441,14 @@ ErrorCode Reference::to_gds(FILE* out, double scaling) const {
         }
 
         if (array) {
-            if (repetition.columns > UINT16_MAX || repetition.rows > UINT16_MAX) {
+            if (repetition.columns > INT16_MAX || repetition.rows > INT16_MAX) {
                 if (error_logger)
                     fputs(
-                        "[GDSTK] Repetition with more than 65535 columns or rows cannot be saved to a GDSII file.\n",
+                        "[GDSTK] Repetition with more than 32767 columns or rows cannot be saved to a GDSII file.\n",
                         error_logger);
                 error_code = ErrorCode::InvalidRepetition;
-                buffer_array[2] = UINT16_MAX;
-                buffer_array[3] = UINT16_MAX;
+                buffer_array[2] = columns > INT16_MAX ? INT16_MAX : (uint16_t)columns;
+                buffer_array[3] = rows > INT16_MAX ? INT16_MAX : (uint16_t)rows;
             } else {
                 buffer_array[2] = (uint16_t)columns;
                 buffer_array[3] = (uint16_t)rows;
